@@ -88,3 +88,99 @@ Proof.
   pose proof (N.mod_lt (a - g_base g) (g_step g) ltac:(lia)).
   repeat split; try assumption; lia.
 Qed.
+
+(* ---- byte-wise addition without carry (epoch indexToIP, dhcp generateAvailableIPs, nexus) ---- *)
+Lemma land3 a b o : N.land (N.land a o) (N.land b o) = N.land (N.land a b) o.
+Proof. apply N.bits_inj. intros n. rewrite !N.land_spec. destruct (N.testbit a n), (N.testbit b n), (N.testbit o n); reflexivity. Qed.
+
+(* two bytes without common bits add without carry *)
+Lemma byte_add_nocarry a b : a < 256 -> b < 256 -> N.land a b = 0 -> a + b < 256.
+Proof.
+  intros Ha Hb Hl. rewrite (N.add_nocarry_lxor a b Hl).
+  destruct (N.eq_dec (N.lxor a b) 0) as [->|Hnz]; [lia|].
+  change 256 with (2 ^ 8). apply N.log2_lt_pow2; [lia|].
+  eapply N.le_lt_trans; [apply N.log2_lxor|].
+  apply N.max_lub_lt.
+  - destruct (N.eq_dec a 0) as [->|Ha0]; [cbn; lia|]. apply N.log2_lt_pow2; [lia|exact Ha].
+  - destruct (N.eq_dec b 0) as [->|Hb0]; [cbn; lia|]. apply N.log2_lt_pow2; [lia|exact Hb].
+Qed.
+
+(* one byte step *)
+Lemma step_low a b : N.land a b = 0 -> N.land (a mod 256) (b mod 256) = 0.
+Proof.
+  intros H. change 256 with (2 ^ 8). rewrite <- !N.land_ones. rewrite land3, H. apply N.land_0_l.
+Qed.
+Lemma step_high a b : N.land a b = 0 -> N.land (a / 256) (b / 256) = 0.
+Proof.
+  intros H. change 256 with (2 ^ 8). rewrite <- !N.shiftr_div_pow2. rewrite <- N.shiftr_land, H. apply N.shiftr_0_l.
+Qed.
+Lemma step_div a b : N.land a b = 0 -> (a + b) / 256 = a / 256 + b / 256.
+Proof.
+  intros H. pose proof (byte_add_nocarry (a mod 256) (b mod 256)
+    (N.mod_lt a 256 ltac:(lia)) (N.mod_lt b 256 ltac:(lia)) (step_low a b H)) as Hs.
+  pose proof (N.div_mod a 256 ltac:(lia)) as Da. pose proof (N.div_mod b 256 ltac:(lia)) as Db.
+  symmetry. apply (N.div_unique (a + b) 256 (a / 256 + b / 256) (a mod 256 + b mod 256)); [exact Hs|lia].
+Qed.
+
+Lemma byte_at_0 v : byte_at v 0 = v mod 256.
+Proof. unfold byte_at. change (256 ^ 0) with 1. rewrite N.div_1_r. reflexivity. Qed.
+Lemma byte_at_S v k : byte_at v (k + 1) = byte_at (v / 256) k.
+Proof. unfold byte_at. rewrite N.pow_add_r, N.pow_1_r, N.mul_comm, <- N.div_div by (try apply N.pow_nonzero; lia). reflexivity. Qed.
+
+(* byte k of a sum without common bits is the wrapped byte sum (which does not wrap) *)
+Lemma byte_at_sum k : forall a b, N.land a b = 0 -> byte_at (a + b) k = badd (byte_at a k) (byte_at b k).
+Proof.
+  induction k as [|k IH] using N.peano_ind; intros a b H.
+  - rewrite !byte_at_0. unfold badd. rewrite N.add_mod by lia. reflexivity.
+  - rewrite <- N.add_1_r, !byte_at_S. rewrite (step_div a b H). apply IH. apply step_high. exact H.
+Qed.
+
+(* four-byte decomposition *)
+Lemma bytes4 v : v < 4294967296 ->
+  v = byte_at v 3 * 16777216 + byte_at v 2 * 65536 + byte_at v 1 * 256 + byte_at v 0.
+Proof.
+  intros Hv. replace (byte_at v 3) with (byte_at v (0 + 1 + 1 + 1)) by reflexivity.
+  replace (byte_at v 2) with (byte_at v (0 + 1 + 1)) by reflexivity.
+  replace (byte_at v 1) with (byte_at v (0 + 1)) by reflexivity.
+  rewrite !byte_at_S, !byte_at_0.
+  pose proof (N.div_mod v 256 ltac:(lia)) as D0. set (v1 := v / 256) in *.
+  pose proof (N.div_mod v1 256 ltac:(lia)) as D1. set (v2 := v1 / 256) in *.
+  pose proof (N.div_mod v2 256 ltac:(lia)) as D2. set (v3 := v2 / 256) in *.
+  assert (H3 : v3 < 256).
+  { subst v3 v2 v1. rewrite N.div_div by lia. rewrite N.div_div by lia. change (256 * 256 * 256) with 16777216.
+    apply N.div_lt_upper_bound; [lia|]. change (16777216 * 256) with 4294967296. exact Hv. }
+  rewrite (N.mod_small v3 256 H3). lia.
+Qed.
+
+(* base aligned to 2^k and an offset below 2^k have no common bits *)
+Lemma aligned_disjoint base off k : base mod 2 ^ k = 0 -> off < 2 ^ k -> N.land base off = 0.
+Proof.
+  intros Hb Ho. apply N.bits_inj. intros n. rewrite N.land_spec, N.bits_0.
+  destruct (N.lt_ge_cases n k) as [Hlt|Hge].
+  - assert (Hbase : base = base / 2 ^ k * 2 ^ k).
+    { pose proof (N.div_mod base (2 ^ k) ltac:(apply N.pow_nonzero; lia)). lia. }
+    rewrite Hbase, N.mul_pow2_bits_low by exact Hlt. reflexivity.
+  - assert (N.testbit off n = false); [|rewrite H; apply andb_false_r].
+    destruct (N.eq_dec off 0) as [->|Hnz]; [apply N.bits_0|].
+    apply N.bits_above_log2. eapply N.lt_le_trans; [|exact Hge]. apply N.log2_lt_pow2; [lia|exact Ho].
+Qed.
+
+(* the byte-wise addition without carry IS addition for every aligned base and in-pool offset *)
+Lemma nocarry_is_addition base off k : k <= 32 -> base < 4294967296 -> base mod 2 ^ k = 0 -> off < 2 ^ k ->
+  add_nocarry32 base off = base + off.
+Proof.
+  intros Hk Hbase Hal Hoff.
+  assert (Ho32 : off < 4294967296).
+  { eapply N.lt_le_trans; [exact Hoff|]. change 4294967296 with (2 ^ 32). apply N.pow_le_mono_r; lia. }
+  assert (Hsum : base + off < 4294967296).
+  { (* base + 2^k <= 2^32 because base is a multiple of 2^k below 2^32 *)
+    assert (Hp : 0 < 2 ^ k) by (apply N.neq_0_lt_0, N.pow_nonzero; lia).
+    pose proof (N.div_mod base (2 ^ k) ltac:(lia)) as Hd. rewrite Hal, N.add_0_r in Hd.
+    assert (Hsp : 4294967296 = 2 ^ (32 - k) * 2 ^ k) by (rewrite <- N.pow_add_r; replace (32 - k + k) with 32 by lia; reflexivity).
+    set (m := base / 2 ^ k) in *.
+    assert (m < 2 ^ (32 - k)). { apply (N.mul_lt_mono_pos_l (2 ^ k)); [exact Hp|]. lia. }
+    assert ((m + 1) * 2 ^ k <= 2 ^ (32 - k) * 2 ^ k) by (apply N.mul_le_mono_r; lia). lia. }
+  pose proof (aligned_disjoint base off k Hal Hoff) as Hl.
+  unfold add_nocarry32. rewrite (N.mod_small off 4294967296 Ho32).
+  rewrite <- !(byte_at_sum _ base off Hl). symmetry. apply bytes4. exact Hsum.
+Qed.
